@@ -359,7 +359,10 @@ func (stmt *Statement) BuildCondition(query interface{}, args ...interface{}) []
 							where.Exprs = []clause.Expression{clause.AndConditions(orConds)}
 						}
 					}
-					conds = append(conds, clause.And(where.Exprs...))
+					// (a handle whose WHERE clause holds nothing gives no condition: And() of nothing is nil)
+					if len(where.Exprs) > 0 {
+						conds = append(conds, clause.And(where.Exprs...))
+					}
 				} else if cs.Expression != nil {
 					conds = append(conds, cs.Expression)
 				}
